@@ -915,6 +915,47 @@ func RunC14(r *mon.Run) {
 				g.inCase(p.proto, []string{"Echo", "SS"}[rep], hdrs, "near-reserved-names")
 			}
 		}
+		// a custom key the client nominates in its Connection header: for a
+		// locally registered service the mux is the addressed hop, the key is
+		// still a custom request header of the call (local target only)
+		if g.target == "" {
+			for _, hp := range []string{"http", "http-sock", "grpcweb", "grpcweb-text", "grpcweb-sock", "grpcweb-text-sock"} {
+				for i, n := 0, r.Pick(8, 60); i < n; i++ {
+					used := map[string]bool{}
+					var hdrs []HdrSpec
+					var named []string
+					for k, nk := 0, 1+rng.Intn(3); k < nk; k++ {
+						bin := (i+k)%2 == 0
+						h := HdrSpec{Name: genReqName(rng, nameGRPCMixed, bin, used), Padded: bin && rng.Intn(2) == 0}
+						for j, nv := 0, 1+rng.Intn(3); j < nv; j++ {
+							if bin {
+								h.Vals = append(h.Vals, genBinValue(rng))
+							} else {
+								h.Vals = append(h.Vals, genASCIIValue(rng))
+							}
+						}
+						hdrs = append(hdrs, h)
+						if k == 0 || rng.Intn(2) == 0 {
+							nm := h.Name
+							switch rng.Intn(3) {
+							case 0:
+								nm = strings.ToLower(nm)
+							case 1:
+								nm = strings.ToUpper(nm)
+							}
+							named = append(named, nm)
+						}
+					}
+					conn := strings.Join(named, ", ")
+					if i%2 == 0 {
+						conn = "keep-alive, " + conn
+					}
+					g.hop = [][2]string{{"Connection", conn}}
+					g.inCase(hp, []string{"Echo", "SS"}[i%2], hdrs, "named-in-connection")
+					g.hop = nil
+				}
+			}
+		}
 		// hop-by-hop headers of HTTP/1 fronts: never metadata, and every other
 		// header still arrives
 		hopSets := [][][2]string{
@@ -1152,6 +1193,25 @@ func RunC14(r *mon.Run) {
 				c.Script.Hdr = []KV{{K: "x-both", V: [][]byte{[]byte("header-value")}}, {K: "x-h-only", V: [][]byte{[]byte("h")}}}
 				c.Script.Trl = []KV{{K: "x-both", V: [][]byte{[]byte("trailer-value")}}, {K: "x-t-only", V: [][]byte{[]byte("t")}}}
 				g.exec(c)
+			}
+			// the same class under the observer option sets (a stats handler makes
+			// the HTTP path touch the trailer metadata): shared keys, text and
+			// -bin, for calls that end without a message and with one
+			for _, opt := range []string{"stats", "stats+icept", "icept"} {
+				for _, oc := range outcomes {
+					if singleReply(v.method) && oc.replies > 0 && oc.code != 0 {
+						continue
+					}
+					for _, send := range []bool{false, true} {
+						c := mk(oc)
+						c.Opt = opt
+						c.Class = "trailer-key-equals-header-key"
+						c.Script.SendHdr = send
+						c.Script.Hdr = []KV{{K: "x-both", V: [][]byte{[]byte("header-value"), []byte("h2")}}, {K: "x-both-bin", V: [][]byte{{0, 1, 0xff, 'h'}}}, {K: "x-h-only", V: [][]byte{[]byte("h")}}}
+						c.Script.Trl = []KV{{K: "x-both", V: [][]byte{[]byte("trailer-value")}}, {K: "x-both-bin", V: [][]byte{{9, 9, 't'}, {'t'}}}, {K: "x-t-only", V: [][]byte{[]byte("t")}}}
+						g.exec(c)
+					}
+				}
 			}
 			// one reserved key with a forged value, in the header or trailer set
 			// (local target only: what a grpc-go back-end does with reserved
